@@ -215,6 +215,19 @@ func norm(n Node, inPath bool) Node {
 			}
 			steps = append(steps, need(s, min))
 		}
+		if len(steps) == 1 && !keep {
+			// the parser only builds a one-step path around names (and
+			// predicates on names); anything else stands for itself
+			switch s := steps[0].(type) {
+			case *Name:
+			case *Pred:
+				if !headIsName(s) {
+					return s
+				}
+			default:
+				return s
+			}
+		}
 		return &Path{Steps: steps, Keep: keep}
 	case *Neg:
 		x := norm(n.X, false)
